@@ -42,6 +42,7 @@ var corpusScenarios = []corpusScenario{
 	{"update-own-own-foreign", false, corpusUpdateOwnOwnForeign},
 	{"buy-removed-order-again", false, corpusBuyRemovedOrderAgain},
 	{"origin-id-whitespace-replay", false, corpusOriginWhitespaceReplay},
+	{"take-amount-base-prefix", false, corpusTakeBasePrefix},
 }
 
 func init() { QuickCounts["corpus"] = len(corpusScenarios) }
@@ -561,5 +562,33 @@ func corpusOriginWhitespaceReplay(c Cfg) *Result {
 			expectNote(true, "C13", "fresh-origin-tx-rejected", "a different id"))
 	}
 	g.Commit()
+	return g.Finish()
+}
+
+// ---- take-amount-base-prefix (C05, fixed finding) ---------------------------------------------------
+// MsgTake.amount is read as an sdk.Int, which accepts math/big's base-0 spellings: "0777" is 511 tokens, "0x10" is
+// 16, "1_000" is 1000.  The credits released must be the tokens burned (the handler used to re-read the string as
+// a decimal: 777 micro-credits for 511 tokens).
+
+func corpusTakeBasePrefix(c Cfg) *Result {
+	g := NewG(c, chain.Options{GenesisTime: T0})
+	a := g.App
+	g.Begin(g.now.Add(6 * time.Second))
+	cid, _, denom := g.corpusWorld()
+	res := g.Do(a.MsgBasketCreate(2, "OCT", "basket", "C", []string{cid}, true, nil, g.basketFee(g.V())), "basket OCT")
+	bd := respField(res, "basket_denom")
+	g.Do(a.MsgBasketPut(0, bd, chain.BasketCredit(denom, "100")), "user 0 deposits 100 credits")
+	g.Commit()
+	g.Begin(g.nextTime())
+	for _, amt := range []string{"0777", "0x10", "0b101", "0o17", "1_000", "+010", "0_7", "010"} {
+		g.Do(a.MsgBasketTake(0, bd, amt, false, "", ""), expectNote(true, "C05", "take-base-prefix-rejected", "take of "+amt+" tokens (base-0 spelling): burned tokens must equal released credits"))
+	}
+	for _, amt := range []string{"08", "0x", "1__0", "_1", "1_", "0b2", "-010", "0_"} {
+		g.Do(a.MsgBasketTake(0, bd, amt, false, "", ""), "take of the malformed integer "+amt)
+	}
+	g.Do(a.MsgBurnRegen(0, "0x10", "burn"), "burn 0x10 = 16 uregen")
+	g.Do(a.MsgBurnRegen(0, "010", "burn"), "burn 010 = 8 uregen")
+	g.Commit()
+	g.GenesisRT("after takes in base-0 spellings")
 	return g.Finish()
 }
